@@ -66,6 +66,9 @@ def check(state, ev, ctx, obs):
     # ---- Connect ----------------------------------------------------------------------------------
     if state == CONNECT:
         if ev == 'tcp_ok':
+            # the OPEN carries version 4, the configured AS (AS_TRANS when it does not fit) and the *configured* hold time
+            if 'open' in ctx and obs.get('opens') != [ctx['open']]:
+                return False
             return st == OPENSENT and wr == [(OPEN,)] and close == 0 and conn == 0
         if ev == 'tcp_fail':
             return st == IDLE and wr == [] and conn == 0
